@@ -321,7 +321,7 @@ def _classify(op, res):
     return p[0]
 
 
-def streams(ctx):
+def streams(ctx, sieve_half=True):
     sts = []
     tmo = 900 if ctx.quick else 7200
     # pi_cache_: every x < 30720, against the L2 lookup and against the oracle sieve
@@ -357,7 +357,7 @@ def streams(ctx):
     # the oracle side of pi_cache: one block per line would hide the x; keep per-x ops but answer them from one sieve
     sts.append(Stream("tables-picache-spec", ["picacher 0 %d" % PI_CACHE_LIMIT], oracle=True,
                       model_ops=_rename({"picacher": "pispecr"}), judge=_judge_range, timeout=tmo))
-    sieve_mod = _sieve_module()
+    sieve_mod = _sieve_module() if sieve_half else None
     if sieve_mod is not None:
         sts += sieve_mod.streams(ctx)
     return sts
